@@ -43,25 +43,144 @@ def alone (step : D → S → Op → D × S × Out) (d : D) : S → List Op → 
 def outputsOf (i : Nat) (trace : List (Nat × Out)) : List Out :=
   (trace.filter (fun e => e.1 == i)).map (·.2)
 
+/-! ## shared state that really exists: initialise-once cells
+
+The Rust code has process-wide statics that are filled on first use (`lazy_static!` regexes of
+`sentence_detector.rs`, the numeral table `CHAR_TO_NUM`, …).  They are shared by all threads and they DO
+change during analysis — once.  Model: the shared state is the dictionary (read-only: a step cannot return
+one) plus a map of once-cells.  A step reaches the cells only through `getOrInit`: it receives the content,
+and an empty cell is first filled by the initialiser `init d c`, which depends on the dictionary and the
+cell number only.  There is no other read and no write. -/
+
+/-- the once-cells: cell number ↦ content, `none` = not initialised yet -/
+abbrev Cells (V : Type) := Nat → Option V
+
+def Cells.empty {V : Type} : Cells V := fun _ => none
+
+def Cells.set {V : Type} (cs : Cells V) (c : Nat) (v : V) : Cells V := fun x => if x = c then some v else cs x
+
+/-- what one step does: `get_or_init` cells, one after the other (later ones may depend on what the earlier
+ones held), then finish with a result -/
+inductive Prog (V R : Type) where
+  | ret : R → Prog V R
+  | getOrInit : Nat → (V → Prog V R) → Prog V R
+
+/-- execution against the cells: an initialised cell is read, an empty one is filled with `init c` first -/
+def Prog.exec {V R : Type} (init : Nat → V) : Prog V R → Cells V → R × Cells V
+  | .ret r, cs => (r, cs)
+  | .getOrInit c k, cs =>
+    match cs c with
+    | some v => (k v).exec init cs
+    | none => (k (init c)).exec init (cs.set c (init c))
+
+/-- the same program when every cell holds what its initialiser gives (no cells needed) -/
+def Prog.pure {V R : Type} (init : Nat → V) : Prog V R → R
+  | .ret r => r
+  | .getOrInit c k => (k (init c)).pure init
+
+/-- the cells that program asks for -/
+def Prog.touched {V R : Type} (init : Nat → V) : Prog V R → List Nat
+  | .ret _ => []
+  | .getOrInit c k => c :: (k (init c)).touched init
+
+/-- a once-cell step as a step of the scheduler `run` whose shared component is the cell map
+(the dictionary `d` is a parameter: read-only by construction) -/
+def onceStep {D V S Op Out : Type} (init : D → Nat → V) (step : D → S → Op → Prog V (S × Out)) (d : D) :
+    Cells V → S → Op → Cells V × S × Out :=
+  fun cs s op => let r := (step d s op).exec (init d) cs; (r.2, r.1.1, r.1.2)
+
+/-- one thread alone, the shared component threaded through its own steps -/
+def aloneG {G S Op Out : Type} (step : G → S → Op → G × S × Out) : G → S → List Op → List Out
+  | _, _, [] => []
+  | g, s, op :: rest => let r := step g s op; r.2.2 :: aloneG step r.1 r.2.1 rest
+
+/-- the cells one thread asks for performing `ops` alone (every cell holding its initial value) -/
+def touchedAlone {D V S Op Out : Type} (init : D → Nat → V) (step : D → S → Op → Prog V (S × Out)) (d : D) :
+    S → List Op → List Nat
+  | _, [] => []
+  | s, op :: rest => (step d s op).touched (init d) ++ touchedAlone init step d ((step d s op).pure (init d)).1 rest
+
+/-- who initialised what: per executed step the cells (numbers below `n`) that were empty before it and are
+filled after it -/
+def initLog {V S Op Out : Type} (n : Nat) (step : Cells V → S → Op → Cells V × S × Out) :
+    Sys (Cells V) S Op → List Nat → List (Nat × Nat)
+  | _, [] => []
+  | sys, i :: rest =>
+    let sys1 := (stepThread step sys i).1
+    ((List.range n).filter (fun c => (sys.dict c).isNone && (sys1.dict c).isSome)).map (fun c => (c, i))
+      ++ initLog n step sys1 rest
+
 /-! ## driver: replay an observed schedule with a table-driven step -/
 
-/-- `C18 run ops=<t0 op ids , …;t1 …> res=<op id:result id, …> sched=<thread numbers>`
+/-- the once-cells of the Rust code, by the name of the `static ref` (cell number = position): the regexes of
+`sentence_detector.rs`, the numeral table, the builder's regexes, the directory of the executable.  The
+`inventory` case of every run compares this list with the `lazy_static!` sites found in the source. -/
+def cellNames : List String :=
+  ["SENTENCE_BREAKER", "ITEMIZE_HEADER", "SPACES", "PARENTHESIS", "PROHIBITED_BOS", "QUOTE_MARKER",
+   "EOS_ITEMIZE_HEADER", "CHAR_TO_NUM", "UNICODE_LITERAL", "WORD_ID_LITERAL", "SPLIT_REGEX", "EMPTY_LINE", "CURRENT_EXE_DIR"]
+
+/-- replay initialiser: a function of the dictionary (its fingerprint) and the cell number only -/
+def replayInit (d c : Nat) : Nat := d * 64 + c + 1
+
+/-- replay step of an operation whose single-threaded result is `res` and which asks for `cells`: it
+`get_or_init`s them in order and answers `res` iff every cell held what its initialiser gives (else 0) -/
+def replayProg (d res : Nat) : List Nat → Bool → Prog Nat (Unit × Nat)
+  | [], ok => .ret ((), if ok then res else 0)
+  | c :: cs, ok => .getOrInit c (fun v => replayProg d res cs (ok && v == replayInit d c))
+
+def parseTouch (t : List Char) : Option (List (Nat × List Nat)) :=
+  if t = ['-'] then some [] else
+  Wire.allSome ((Wire.items ',' t).map (fun it =>
+    match Wire.splitOn ':' it with
+    | [o, cs] => match Wire.nat? o, Wire.allSome ((Wire.items '.' cs).map Wire.nat?) with
+      | some o, some cs => some (o, cs)
+      | _, _ => none
+    | _ => none))
+
+/-- `C18 run ops=<t0 op ids , …;t1 …> res=<op id:result id, …> sched=<thread numbers> fp=<dictionary> ncells=<n>
+pre=<cells initialised before the threads start> touch=<op id:cell.cell, …>`
 (operations and results are numbered by the harness; `res` is the result every operation has when its
-thread runs alone).  answer: the global trace `thread:result` predicted for that schedule -/
+thread runs alone; `touch` the once-cells it asks for).  answer: the global trace `thread:result` predicted for
+that schedule by the once-cell scheduler, who initialised which cell (`cell:thread`, in order), and the cells
+that are initialised at the end -/
 def handle (toks : List (List Char)) : String :=
-  match Wire.kv? toks "ops", Wire.kv? toks "res", Wire.kv? toks "sched" with
-  | some o, some r, some sc =>
+  match Wire.kv? toks "ops", Wire.kv? toks "res", Wire.kv? toks "sched",
+        Wire.kv? toks "fp", Wire.kv? toks "ncells", Wire.kv? toks "pre", Wire.kv? toks "touch" with
+  | some o, some r, some sc, some fp, some nc, some pre, some tch =>
     match Wire.allSome ((Wire.items ';' o).map (fun t => if t = ['-'] then some [] else Wire.natList? t)),
-          Wire.allSome ((Wire.items ',' r).map Wire.natTuple?), Wire.natList? sc with
-    | some ops, some res, some sched =>
+          Wire.allSome ((Wire.items ',' r).map Wire.natTuple?), Wire.natList? sc,
+          Wire.nat? fp, Wire.nat? nc, (if pre = ['-'] then some [] else Wire.natList? pre), parseTouch tch with
+    | some ops, some res, some sched, some d, some n, some pre, some touch =>
       let table : Nat → Nat := fun op => match res.find? (fun t => t.head? == some op) with
         | some [_, v] => v
         | _ => 0
-      let step : Unit → Unit → Nat → Unit × Unit × Nat := fun d s op => (d, s, table op)
-      let sys : Sys Unit Unit Nat := { dict := (), states := ops.map (fun _ => ()), pending := ops }
-      let (_, trace) := run step sys sched
+      let cellsOf : Nat → List Nat := fun op => match touch.find? (fun t => t.1 == op) with
+        | some t => t.2
+        | none => []
+      let stepP : Nat → Unit → Nat → Prog Nat (Unit × Nat) := fun d _ op => replayProg d (table op) (cellsOf op) true
+      let cells0 : Cells Nat := pre.foldl (fun cs c => cs.set c (replayInit d c)) Cells.empty
+      let sys : Sys (Cells Nat) Unit Nat := { dict := cells0, states := ops.map (fun _ => ()), pending := ops }
+      let (fin, trace) := run (onceStep replayInit stepP d) sys sched
+      let log := initLog n (onceStep replayInit stepP d) sys sched
       "ok trace=" ++ Wire.joinWith "," (trace.map (fun e => toString e.1 ++ ":" ++ toString e.2))
-    | _, _, _ => "bad-op"
-  | _, _, _ => "bad-op"
+        ++ " init=" ++ Wire.joinWith "," (log.map (fun e => toString e.1 ++ ":" ++ toString e.2))
+        ++ " cells=" ++ Wire.showNats ((List.range n).filter (fun c => (fin.dict c).isSome))
+    | _, _, _, _, _, _, _ => "bad-op"
+  | _, _, _, _, _, _, _ => "bad-op"
+
+/-- `C18 inventory allow=<class|file|pattern|count;…>`: the committed allow-list of shared-state sites
+(`c18_shared_state.txt`) the model was written against.  answer: the sites without their class, and the names of
+the model's once-cells — the harness answers with what it finds in the source NOW. -/
+def handleInventory (toks : List (List Char)) : String :=
+  match Wire.kv? toks "allow" with
+  | some a =>
+    let sites := (Wire.items ';' a).map (fun it => match Wire.splitOn '|' it with
+      | _ :: rest => Wire.joinWith "|" (rest.map String.ofList)
+      | [] => "")
+    "ok sites=" ++ Wire.joinWith ";" sites ++ " cells=" ++ Wire.joinWith "," cellNames
+  | none => "bad-op"
+
+def handleOp (op : List Char) (toks : List (List Char)) : String :=
+  if op = "inventory".toList then handleInventory toks else handle toks
 
 end Sched
